@@ -278,6 +278,19 @@ func cmdCheck(args []string) {
 		fmt.Printf("failed obligation %s (%s by %s) at %s\n", ob.Name, ob.Status, ob.Solver, ob.Where)
 		fmt.Printf("VIOLATION property=%s replay=%s%s\n", *prop, rp, suffix)
 	}
+	// thorough tier: the must-fail corpus of this property (own mutants and the stored seeded
+	// changes) is run through the same obligations; an entry that is not reported means the
+	// check lost its teeth: the check is broken (exit 2), not a violation
+	corpusN, corpusMissed := 0, []string(nil)
+	if *tier == "thorough" && exit == 0 {
+		corpusN, corpusMissed = selftestProperty(*repo, *prop, 4000)
+		fmt.Printf("must-fail corpus: %d entries, not reported: %v\n", corpusN, corpusMissed)
+		if len(corpusMissed) > 0 {
+			fmt.Printf("BROKEN: must-fail corpus entries not reported: %v\n", corpusMissed)
+			exit = 2
+		}
+	}
+	mustFail = map[string]interface{}{"entries": corpusN, "not_reported": corpusMissed, "ran": *tier == "thorough"}
 	wall := time.Since(t0).Seconds()
 	if !*noEvidence {
 		writeEvidence(c, vd, *prop, *tier, seed, res, obls, probes, failed, knownMatched, unclaimed, violations, wall, timeout)
@@ -423,6 +436,8 @@ func tryDrivers(vd, repo, obName string, drivers []Driver, scratch string, conte
 
 // ---------------------------------------------------------------------------
 
+var mustFail map[string]interface{}
+
 func writeEvidence(c *Ctx, vd, prop, tier string, seed int, res []*procResult, obls, probes, failed []*Obligation, knownMatched []string, unclaimed, violations int, wall float64, timeoutMs int) {
 	isKnown := map[string]bool{}
 	for _, k := range knownMatched {
@@ -539,6 +554,7 @@ func writeEvidence(c *Ctx, vd, prop, tier string, seed int, res []*procResult, o
 		"vacuity_probes":           len(probes),
 		"vacuity_probes_passed":    vac,
 		"known_findings_matched":   kfs,
+		"must_fail_corpus":         mustFail,
 		"callee_contracts_relied_on": callee,
 		"bounded_standins":         []string{},
 		"explanation":              "every obligation is generated from the typed AST of /repo's working tree on this run; contracts are the //@ blocks of the verif-tagged files",
